@@ -152,7 +152,13 @@ pub enum Fault {
     /// scrut's own stdout and stderr are cut off (their reader has gone away) just before the
     /// nth spawn: every later write fails with EPIPE - or kills the process, if SIGPIPE is not
     /// ignored
-    OutputClosed { nth: u32 },
+    OutputClosed {
+        nth: u32,
+        /// 0 = stdout and stderr, 1 = stdout only (`scrut ... | head`), 2 = stderr only
+        /// (`scrut ... 2>&1 >report | head`, a log collector that went away)
+        #[serde(default)]
+        which: u8,
+    },
 }
 
 #[derive(Clone, Debug, PartialEq, Eq, Serialize, Deserialize)]
